@@ -256,10 +256,13 @@ def daily(self):
     return self.current.elapsed() or self.filtration.elapsed()""",
     ("filtration", "EcoMode", "elapsed_off", ""): """def elapsed_off(self):
     return self.current.elapsed() and (not self.filtration.elapsed())""",
+    # the reload is two self-sent messages: `reload` (to the reload state of the mode: timers cleared) and, sent by
+    # on_enter_reload, `reloaded` (back to eco: eco_compute); in the model: reloadEco (lateness j1, j2)
     ("filtration", "Filtration", "__reload_eco", ""): """def __reload_eco(self):
     if self.is_eco(allow_substates=True):
-        self._proxy.reload.defer()
-        self._proxy.eco.defer()""",
+        self._proxy.reload.defer()""",
+    ("filtration", "Filtration", "on_enter_reload", ""): """def on_enter_reload(self):
+    self._proxy.reloaded.defer()""",
     ("filtration", "Filtration", "duration", ""): """def duration(self, value):
     current_duration = self.__eco_mode.filtration.duration
     self.__eco_mode.daily = timedelta(seconds=value)
